@@ -175,13 +175,13 @@ def jobs(tier):
     q = tier == "quick"
     N = 3 if q else 4
     out = []
-    kinds = ["ok", "exc", "res", "abort_exc", "cancelled", "kbd", "nested_exhausted"]
+    kinds = ["ok", "exc", "res", "resnone", "abort_exc", "cancelled", "kbd", "nested_exhausted"]
     for entry in ENTRIES:
         for o1 in range(len(kinds)):
             out.append(dict(name=f"run:{entry}:o1={kinds[o1]}", harness="rv.props.c11:h_run",
                             params=dict(entry=entry, N=N, kinds=kinds, classes=["TRANSIENT", "PERMANENT"],
                                         limits=["TRANSIENT"], handler=True, abort=True, budget="sym", pin={"o1": o1}),
-                            max_wall_s=600 if q else 3000, weight=3 if o1 in (1, 2) else 1))
+                            max_wall_s=600 if q else 3000, weight=3 if o1 in (1, 2, 3) else 1))
     for entry in ENTRIES[:2] if q else ENTRIES:
         out.append(dict(name=f"timed:{entry}", harness="rv.props.c11:h_run",
                         params=dict(entry=entry, N=2 if q else 3, kinds=["ok", "exc", "res"], classes=["TRANSIENT"],
